@@ -82,6 +82,10 @@ def run(ck: Checker):
     ck.rule('C15.FOLD', 'the evaluators folded on instances of the repository\'s Circuit class over a family of model circuits and every assignment over False/True/Undefined: a reported True/False holds under every completion, defining one more input never changes a defined result, total assignments leave no evaluated gate undefined, absent inputs are Undefined, the caller\'s assignment is untouched')
     from .. import eval_fold
     eval_fold.fold_evaluators(ck, 'C15.FOLD')
+    ck.rule('C15.HIST', 'evaluate_full_circuit and evaluate_circuit folded at random points of seeded histories of public mutations: a total assignment leaves no evaluated gate undefined and gives the value the circuit computes then (shared machinery with C02.HIST)')
+    from .. import history_fold
+    history_fold.fold_histories(ck, 'C15.HIST', only=(), observers=('evaluate_full_circuit', 'evaluate_circuit'), n_hist=(120 if ck.tier == 'quick' else 1200))
+    ck.floor('C15.HIST', 2)
     ck.floor('C15.FOLD', 6)
     # values flow only through operators
     ck.rule('C01.APPLY', 'shape of the evaluators (shared with C01)')
